@@ -459,6 +459,9 @@ class Models:
             if len(v.args) == 1:
                 return self.str_of(eng, v.args[0], st)
             return VStr(fresh('str_of_exc', so.S))
+        if type(v).__name__ == 'VPyObj' and v.arg is not None:
+            from .plug_types import str_of_obj
+            return VStr(str_of_obj(v.arg))
         # anything else: an unconstrained string (messages only)
         return VStr(fresh('str_of', so.S))
 
